@@ -237,6 +237,7 @@ func (j *jparser) num() (JDump, error) {
 	}
 	lit := string(j.s[st:j.p])
 	d := jd("num")
+	d.B = B(lit) // the literal as written (a value mapping may hand it on as text)
 	f, err := strconv.ParseFloat(lit, 64)
 	if err != nil && !math.IsInf(f, 0) {
 		return d, fmt.Errorf("bad number %q", lit)
